@@ -663,3 +663,10 @@ pub(crate) const POSTUNTRANS_TAGS: ScriptletIndexTags = (
     IndexTag::RPMTAG_POSTUNTRANSFLAGS,
     IndexTag::RPMTAG_POSTUNTRANSPROG,
 );
+
+/// Index tag values for the %verifyscript scriptlet,
+pub(crate) const VERIFYSCRIPT_TAGS: ScriptletIndexTags = (
+    IndexTag::RPMTAG_VERIFYSCRIPT,
+    IndexTag::RPMTAG_VERIFYSCRIPTFLAGS,
+    IndexTag::RPMTAG_VERIFYSCRIPTPROG,
+);
